@@ -613,7 +613,7 @@ def run_case(case, cfg):
             reached = True  # only a proven-unsat path condition makes a path vacuous
             if v == "unknown":
                 rep["inconclusive"].append(dict(path=pi, goal="<reachability twin>", why="satisfiability of the path hypotheses unknown"))
-        pch = hashlib.sha1(("|".join(sorted(p.sexpr() for p in ctx.pc))).encode()).hexdigest()[:12]
+        pch = hashlib.sha1(("|".join(str(h) for h in sorted(p.hash() for p in ctx.pc))).encode()).hexdigest()[:12]
         rep["pcs"].append(pch)
         env = None
         goals = []
@@ -626,7 +626,9 @@ def run_case(case, cfg):
                 goals = []
             else:
                 # raising on a feasible path is a violation of "no exception"; confirm feasibility, replay
-                if v == "sat":
+                if v == "sat" and m_path is None:
+                    m_path = _witness_model(ctx)
+                if v == "sat" and m_path is not None:
                     env = env_box.get("env")
                     viol = _confirm(case, "no_exception", m_path, ctx, env, exc=e, tb=r.tb, cfg=cfg)
                     rep["replays"] += 1
@@ -706,8 +708,9 @@ def run_case(case, cfg):
                                 obligation=gname.startswith("defined["))
                 rep["replays"] += 1
                 rep["violations"].append(viol)
-    if results and not reached and not rep["gaps"] and rep["unwound"] < len(results):
-        rep["vacuous"] = True
+    n_live = sum(rep["path_status"].get(k, 0) for k in ("ok", "raised"))
+    if n_live and not reached and not rep["gaps"] and rep["path_status"].get("vacuous", 0) >= n_live:
+        rep["vacuous"] = True  # every completed path has provably unsatisfiable hypotheses
     rep["q"] = qs.as_dict()
     rep["cross"] = qs.cross
     rep["feas_queries"] = est.feas_queries
@@ -727,17 +730,26 @@ def _reach(ctx, hyps, timeout_ms, qs):
     """reachability twin: are the path hypotheses satisfiable?  Falls back to fixing the base
     variables (inputs, random draws) to a model of the relaxed hypotheses, which leaves only the
     defined symbols (sqrt, quotients, ...) for the solver."""
+    # a concrete witness carried along the path (assumptions and path condition evaluated exactly /
+    # with a float margin; defined symbols computed from their definitions) shows reachability
+    if getattr(ctx, "particles", None):
+        ctx._replenish(0)
+        live = [p for p in ctx.particles if ctx._consistent(p)]
+        if live:
+            qs.reach_by_witness = getattr(qs, "reach_by_witness", 0) + 1
+            return "sat", None
     # the path's own incremental solver has already seen all hypotheses: cheapest first
     try:
         t0 = time.time()
         ctx.solver.set("timeout", max(timeout_ms // 4, 2000))
-        r0 = ctx.solver.check()
+        from .explore import guarded_check
+        r0 = guarded_check(ctx.solver, max(timeout_ms // 4, 2000))
         qs.n += 1
         qs.time += time.time() - t0
-        if r0 == z3.sat:
+        if r0 == z3.sat and not ctx.has_weak:
             qs.sat += 1
             return "sat", ctx.solver.model()
-        if r0 == z3.unsat:
+        if r0 == z3.unsat:  # the path solver over-approximates: unsat there is unsat
             qs.unsat += 1
             return "unsat", None
         qs.unknown += 1
@@ -764,6 +776,29 @@ def _reach(ctx, hyps, timeout_ms, qs):
     if v2 == "sat":
         return "sat", m2
     return v, m
+
+
+class _DictModel:
+    """adapter: a concrete witness (dict name -> value) used like a z3 model by the replay code"""
+
+    def __init__(self, p):
+        self.p = p
+
+    def eval(self, t, model_completion=True):
+        name = t.decl().name()
+        v = self.p.get(name, 0)
+        if isinstance(v, bool):
+            return z3.BoolVal(v)
+        if z3.is_int(t):
+            return z3.IntVal(int(v))
+        return z3.RealVal(str(Fraction(v)) if not isinstance(v, float) else str(Fraction(v)))
+
+
+def _witness_model(ctx):
+    for p in ctx.particles:
+        if ctx._consistent(p):
+            return _DictModel(p)
+    return None
 
 
 def _gfam(g):
